@@ -4,11 +4,21 @@
  *   C09_PRINT     hex of the bytes to print on stdout
  *   C09_EXIT      exit status
  *   C09_SLEEP_DS  tenths of a second to sleep before exiting (timeout test)
+ *   C09_TERM      what to do on SIGTERM: "t0".."t3" = catch it and exit 0..3 at once, "ti" = ignore it, else default action
  */
 #include <stdio.h>
 #include <stdlib.h>
 #include <string.h>
 #include <unistd.h>
+#include <signal.h>
+
+static int l_TermExit = 0;
+
+static void OnTerm(int sig)
+{
+	(void)sig;
+	_exit(l_TermExit);
+}
 
 static int nib(char c)
 {
@@ -23,6 +33,14 @@ int main(int argc, char **argv)
 	const char *print = getenv("C09_PRINT");
 	const char *ex = getenv("C09_EXIT");
 	const char *sl = getenv("C09_SLEEP_DS");
+
+	const char *term = getenv("C09_TERM");
+	if (term && term[0] == 't' && term[1] >= '0' && term[1] <= '3') {
+		l_TermExit = term[1] - '0';
+		signal(SIGTERM, OnTerm);
+	} else if (term && !strcmp(term, "ti")) {
+		signal(SIGTERM, SIG_IGN);
+	}
 
 	if (out) {
 		char tmp[4096];
@@ -49,8 +67,9 @@ int main(int argc, char **argv)
 	}
 	if (sl) {
 		long ds = atol(sl);
-		if (ds > 0)
-			usleep((useconds_t)ds * 100000);
+		/* sleep in slices: an ignored/handled signal interrupts usleep */
+		for (long k = 0; k < ds; k++)
+			usleep(100000);
 	}
 	return ex ? atoi(ex) : 0;
 }
